@@ -20,6 +20,19 @@ def budgets(net, config=None):
     return general, sim
 
 
+SHAPE4_CYCLE_FP = "A, A&B\nB, (!A&B)|(A&!B&C)\nC, (!C&!D)|(A&!C&D)|(A&C&!D)\nD, (!D&!B&C)|(!D&B&!C)|(D&B)\n"
+
+
+def shapes4():
+    import itertools
+    out = []
+    for perm in itertools.permutations("ABCD"):
+        ren = dict(zip("ABCD", perm))
+        lines = ["".join(ren.get(c, c) for c in ln) for ln in SHAPE4_CYCLE_FP.strip().split("\n")]
+        out.append(("bnet", "\n".join(sorted(lines)) + "\n"))
+    return out
+
+
 def universes(tier, seed):
     """(name, specs, ops)"""
     ALL = [("build",), ("bfs", None, None, None), ("scc", True), ("aseeds", None), ("min", None, None, True)]
@@ -31,6 +44,10 @@ def universes(tier, seed):
         for v in U.with_free_inputs(net_from_index(2, i)):
             u2f.append(("fi", 2, i, sorted(v.inputs)))
     out.append(("U2f", u2f, ALL))
+    # hand-made 4-variable shapes for branches of symbolic_attractor_test that no catalogue network reaches (a 4-cycle and a
+    # fixed point in one unexpanded node: forward growth is postponed while a non-conflict variable is still unsaturated), under
+    # every assignment of the four names to the roles (the BDD variable order drives the size heuristic that postpones growth)
+    out.append(("SHAPES4", shapes4(), ALL))
     if tier == "quick":
         out.append((f"MULTI3[{seed % 8}/8]", [("idx", 3, i) for i in U.shard(U.catalogue("multi"), seed, 8)], ALL[:3]))
         out.append((f"NFVS3_multi[{seed % 8}/8]", [("idx", 3, i) for i in U.shard(U.catalogue("nfvs_multi"), seed, 8)], ALL[:3]))
